@@ -41,6 +41,11 @@ def check(ctx, rep, tier):
         subs = _term_chain(ret_terms.get(id(r)), st_)
         tag = "" if len(rets) == 1 else " [return {}]".format(ri + 1)
         domain = _path_domain(r, pre)
+        if len(subs) != 2 and not _term_understood(ret_terms.get(id(r)), st_):
+            rep.undecided("separator-class", "{}::_preprocess_string::substitution chain{}".format(cm.rel, tag),
+                          cm.where(r), "the returned text is not a chain of substitutions and strips over the "
+                          "argument that this clause can follow: {}".format(st_.term_text(ret_terms.get(id(r)))[:80]))
+            continue
         if len(subs) != 2:
             rep.violated("separator-class", "{}::_preprocess_string::substitution chain{}".format(cm.rel, tag),
                          cm.where(r), "a return path applies {} substitution(s) instead of the separator "
@@ -95,6 +100,16 @@ def _module_patterns(cm):
                 any("VERSION1" in norm(k.value) for k in st.value.keywords)
             out[st.targets[0].id] = (st.value.args[0].value, v1, st)
     return out
+
+
+def _term_understood(t, st_):
+    """the term is built from the text parameter by substitutions and strips only"""
+    while True:
+        t, _ = st_.strip_ops(t)
+        if isinstance(t, tuple) and t and t[0] == "sub":
+            t = t[4]
+            continue
+        return isinstance(t, tuple) and bool(t) and t[0] == "text"
 
 
 def _term_chain(t, st_):
